@@ -11,6 +11,7 @@ import (
 	"reflect"
 	"sort"
 	"strings"
+	"time"
 
 	tq "github.com/facebookincubator/tacquito"
 	"github.com/facebookincubator/tacquito/cmds/server/config"
@@ -563,7 +564,33 @@ func c17Body(script []string, pending, patient bool, proxy ...bool) func(x *sx) 
 			partial = c17ProxyLine[:9] // a proxy line that never gets its terminator
 		}
 		sess := uint32(100)
+		trickled := map[byte]int{}
+		// waitDeadline[i]: the read deadline armed when the server began to wait for connection i's current packet
+		waitDeadline := map[int]time.Time{}
+		mark := map[int]int{}
+		noteWait := func() {
+			for i, c := range conns {
+				if _, ok := waitDeadline[i]; ok {
+					continue
+				}
+				for _, e := range c.Log {
+					if e.Seq > mark[i] && (e.Kind == "rdeadline" || e.Kind == "deadline") {
+						waitDeadline[i] = e.T
+						break
+					}
+				}
+			}
+		}
 		for _, ev := range script {
+			if patient && (ev[0] == 'C' || ev[0] == 'F') {
+				// a new wait begins after this event: forget the previous one
+				i := len(conns)
+				if ev[0] == 'F' {
+					i = int(ev[1] - '0')
+				}
+				delete(waitDeadline, i)
+				mark[i] = world.Seq()
+			}
 			switch ev[0] {
 			case 'C':
 				c := world.NewConn(len(conns), srvx.Addr4(10, 0, 0, byte(1+len(conns)), 1700))
@@ -584,6 +611,18 @@ func c17Body(script []string, pending, patient bool, proxy ...bool) func(x *sx) 
 				}
 			case 'P':
 				conns[ev[1]-'0'].Feed(partial)
+			case 'T':
+				// the client sends one more byte of a packet ten seconds after its previous one; deadlines that have
+				// been reached by then expire first
+				vsyncrt.Advance(10 * 1e9)
+				for _, c := range conns {
+					c.ExpireIfDue()
+				}
+				c := conns[ev[1]-'0']
+				if !c.Closed() {
+					c.Feed(partial[trickled[ev[1]-'0']%len(partial) : trickled[ev[1]-'0']%len(partial)+1])
+					trickled[ev[1]-'0']++
+				}
 			case 'D':
 				vsyncrt.Advance(20 * 1e9)
 				conns[ev[1]-'0'].FireDeadline()
@@ -594,6 +633,23 @@ func c17Body(script []string, pending, patient bool, proxy ...bool) func(x *sx) 
 			}
 			if patient {
 				vsyncrt.Quiesce() // the server digests this event completely before the next one
+				noteWait()
+			}
+		}
+		// a connection that has not delivered a complete packet by the deadline that was armed when the server began to
+		// wait for it is closed, however the client paces its bytes (judged when every event has been digested)
+		clockDriven := true // D fires one connection's deadline whatever the clock says; only T lets time pass for everybody
+		for _, ev := range script {
+			if ev[0] == 'D' {
+				clockDriven = false
+			}
+		}
+		if patient && clockDriven {
+			for i, c := range conns {
+				if d0, ok := waitDeadline[i]; ok && !d0.IsZero() && vsyncrt.Now().After(d0) && !c.Closed() {
+					x.fail("C17/kept-open-past-deadline", fmt.Sprintf("connection %d: the server began to wait for a packet with the read deadline %s armed, no complete packet arrived, the clock reads %s and the connection is still open",
+						i, d0.Format("15:04:05"), vsyncrt.Now().Format("15:04:05")))
+				}
 			}
 		}
 		// fair closing phase: cancel, then every armed deadline fires until Serve returns
@@ -676,6 +732,14 @@ func c17Jobs(quick bool) []sjob {
 			jobs = append(jobs, sjob{"script (sessions left pending, each event digested) " + strings.Join(s, " "), c17Body(s, true, true)})
 			jobs = append(jobs, sjob{"script (sessions left pending) " + strings.Join(s, " "), c17Body(s, true, false)})
 		}
+	}
+	// pacing: a client that sends one byte every ten seconds and never completes a packet - from the start, after a complete
+	// packet, around a cancellation, on two connections, in proxy mode (T = ten seconds pass, then one more byte)
+	for _, s := range [][]string{{"C", "T0", "T0"}, {"C", "T0", "T0", "T0", "T0"}, {"C", "F0", "T0", "T0", "T0"}, {"C", "T0", "X", "T0", "T0"}, {"C", "C", "T0", "T1", "T0", "T1"}, {"C", "P0", "T0", "T0"}} {
+		s := s
+		jobs = append(jobs, sjob{"pacing, script (each event digested before the next) " + strings.Join(s, " "), c17Body(s, false, true)})
+		jobs = append(jobs, sjob{"pacing, sessions left pending, script (each event digested before the next) " + strings.Join(s, " "), c17Body(s, true, true)})
+		jobs = append(jobs, sjob{"pacing, proxy mode, script (each event digested before the next) " + strings.Join(s, " "), c17Body(s, false, true, true)})
 	}
 	// the same server built with SetUseProxy: a proxy line precedes every packet, P is a proxy line that is never terminated
 	for _, s := range c17Scripts(n - 1) {
